@@ -202,7 +202,12 @@ func (rs *bodyStream) Read(p []byte) (int, error) {
 	}
 
 	if conn, ok := rs.reader.(io.Reader); ok {
-		m, err = conn.Read(p[n:])
+		rp := p[n:]
+		// never read past Content-Length (m < 0: identity body of unknown length)
+		if m >= 0 && m < len(rp) {
+			rp = rp[:m]
+		}
+		m, err = conn.Read(rp)
 	} else {
 		var tmp []byte
 		tmp, err = rs.reader.Peek(m)
